@@ -12,7 +12,7 @@ import math
 import os
 
 from gridlint import e4
-from gridlint.core import AnalysisError, Report, norm
+from gridlint.core import AnalysisError, Report, norm, strip_docstring
 from gridlint.props.common import get_repo
 
 PROP = "C17"
@@ -31,6 +31,60 @@ EXPLANATION = (
     "NOT decided: how far an r-dependent small-r expansion may be used (numerical), superposition.")
 RULE = ("one instance per (element entry x obligation) of atomic_gauss_params.json, plus loader-side obligations; "
         "2 routines x 2 variants x 3 analytic identities")
+
+
+def rule_superposition(rep, repo):
+    """`coulomb_potential` is the coefficient-weighted sum over *all* s and *all* p primitives: each
+    family must be accumulated into the returned array, and the loops / guards that decide which
+    primitives of one family are visited must not depend on the arrays of the other family (a p
+    function enumerated through the s centres is dropped whenever its centre is not an s centre)."""
+    from gridlint.props.c07 import local_defs, depends_on
+    f = repo.module_func("coulomb", "coulomb_potential")
+    params = list(f.allparams)
+    fam = {"s": {p_ for p_ in params if p_.endswith("_s")}, "p": {p_ for p_ in params if p_.endswith("_p")}}
+    if len(fam["s"]) < 3 or len(fam["p"]) < 3:
+        raise AnalysisError("anchor vanished: coulomb_potential(points, centers_s, coeffs_s, alphas_s, centers_p, ...)")
+    defs = local_defs(f.node)
+    # enclosing loops / guards of every accumulation statement
+    found = {"s": [], "p": []}
+
+    def walk(stmts, ctx):
+        for st in stmts:
+            if isinstance(st, (ast.For, ast.While)):
+                it = st.iter if isinstance(st, ast.For) else st.test
+                walk(st.body, ctx + [it])
+                walk(st.orelse, ctx)
+            elif isinstance(st, ast.If):
+                walk(st.body, ctx + [st.test])
+                walk(st.orelse, ctx + [st.test])
+            elif isinstance(st, (ast.With, ast.Try)):
+                walk(st.body, ctx)
+            else:
+                for c in ast.walk(st):
+                    if isinstance(c, ast.Call) and norm(c.func) in ("coulomb_gaussian_s", "coulomb_gaussian_p"):
+                        if isinstance(st, ast.AugAssign) and isinstance(st.op, ast.Add):
+                            found[norm(c.func)[-1]].append((st, list(ctx)))
+    walk(strip_docstring(f.node.body), [])
+    for k, other in (("s", "p"), ("p", "s")):
+        cons = "coulomb.coulomb_potential"
+        if not found[k]:
+            rep.violation("S1.every-primitive-summed", cons, f"{k}-type",
+                          f"no `+=` accumulation of coulomb_gaussian_{k}(...) terms: the {k}-type functions do not enter the sum",
+                          f.loc())
+            continue
+        for st, ctx in found[k]:
+            deps = set()
+            for e_ in ctx:
+                deps |= depends_on(e_, set(params), defs)
+            cross = sorted(deps & fam[other])
+            if cross:
+                rep.violation("S1.every-primitive-summed", cons, f"{k}-type",
+                              f"which {k}-type functions are added (`{norm(st)[:70]}`) is decided by loops / tests that depend "
+                              f"on {cross}: a {k}-type function whose centre (or index) has no counterpart there is left "
+                              f"out of the sum", repo.rel("coulomb", st))
+            else:
+                rep.ok("S1.every-primitive-summed", f"coulomb_potential[{k}-type]", repo.rel("coulomb", st),
+                       f"enumeration depends on {sorted(deps & fam[k]) or 'nothing'} only")
 
 
 def run(tier="quick", root="/repo", evidence_dir=None, quiet=False):
@@ -166,6 +220,7 @@ def run(tier="quick", root="/repo", evidence_dir=None, quiet=False):
             rep.violation("entry-finite-coefficients", f"data/{fname}", f"{sym}:coefficients",
                           f"entry {sym!r} has non-numeric / non-finite coefficient(s)", where)
     rep.floor("shipped parameter sets", len(table), 5)
+    rep.attempt(rule_superposition, rep, repo)
     # analytic clause: the s/p routines return the potential of the density they document (E8 + erf)
     from gridlint import identities
     rep.attempt(identities.rule_coulomb, rep, repo)
